@@ -95,6 +95,22 @@ func (fr *frame) writeInt(s *Val, v Term, nbytes int, little bool) {
 			fr.frameCheck(compsOf(lv0), bk.Ref, "PutUint", token.NoPos)
 		}
 	}
+	// int mode: name the bytes and state the recomposition identity sum b_k*256^k == v mod 256^n (a theorem of
+	// integer arithmetic that the solvers do not find by themselves within the time limit)
+	var named []Term
+	if gInt && nbytes > 1 {
+		var terms []string
+		for k := 0; k < nbytes; k++ {
+			bk := ft.c.Define("wb", byteOf(v, k))
+			named = append(named, bk)
+			terms = append(terms, fmt.Sprintf("(* %s %s)", pow2(8*k).String(), bk.T))
+		}
+		sum := Term{SInt, "(+ " + strings.Join(terms, " ") + ")"}
+		ident := mkEq(sum, Term{SInt, fmt.Sprintf("(mod %s %s)", v.T, pow2(8*nbytes).String())})
+		for _, bk := range named {
+			ft.c.Assume(bk, ident)
+		}
+	}
 	for j := 0; j < nbytes; j++ {
 		var k int
 		if little {
@@ -103,6 +119,9 @@ func (fr *frame) writeInt(s *Val, v Term, nbytes int, little bool) {
 			k = nbytes - 1 - j
 		}
 		b := byteOf(v, k)
+		if named != nil {
+			b = named[k]
+		}
 		idx := ft.c.Define("wi", app(SIdx, "bvadd", s.sOff(), idxInt(int64(j))))
 		ft.c.AddInst(idx)
 		lv := bk.extend(Step{Idx: &idx}, types.Typ[types.Uint8])
